@@ -100,21 +100,24 @@ func (s SServer) term() gal.Term {
 }
 
 type SOp struct {
-	Kind   string // open rebclose rebopen close deliver ack savebegin savewrite saveend crash scrape end
-	First  uint16
-	Last   uint16
-	Sv     *SServer `json:",omitempty"`
-	Cancel bool
-	Vb     uint16
-	Ev     *SEv `json:",omitempty"`
-	I      int
-	Ok     bool
-	Cause  string // clean transient final
-	ErrIdx int    // which concrete error of the class
-	UUID   uint64
-	Roll   bool
-	High   map[uint16]uint64 `json:",omitempty"`
-	R1, R2 bool              // shutdown: how a store call in flight / the final save ends
+	Kind     string // open rebclose rebopen close deliver ack savebegin savewrite saveend crash scrape end
+	First    uint16
+	Last     uint16
+	Sv       *SServer `json:",omitempty"`
+	Cancel   bool
+	Vb       uint16
+	Ev       *SEv `json:",omitempty"`
+	I        int
+	Ok       bool
+	Cause    string // clean transient final
+	ErrIdx   int    // which concrete error of the class
+	UUID     uint64
+	Roll     bool
+	High     map[uint16]uint64 `json:",omitempty"`
+	R1, R2   bool              // shutdown: how a store call in flight / the final save ends
+	Gate     *SEv              `json:",omitempty"` // shutdown: a document that is waiting at the rollback-mitigation gate of GateVb when Close() arrives
+	GateVb   uint16            `json:",omitempty"`
+	Released bool              `json:",omitempty"` // deliver: the document that was waiting at the gate (it passes the gate once the observer is closed)
 }
 
 func (o SOp) term() gal.Term {
@@ -324,6 +327,7 @@ type SDriver struct {
 	Trace     *fakes.Trace
 	Life      *LifeObs
 	opIdx     int
+	gatedOuts []SOut
 }
 
 func NewSDriver(c SCfg, initial map[uint16]SDoc) *SDriver {
@@ -617,6 +621,10 @@ func (d *SDriver) Exec(op SOp) (outs []SOut) {
 		outs = d.closeOuts(d.Hand.Take())
 		outs = append(outs, d.checkStop(150*time.Millisecond)...)
 	case "deliver":
+		if op.Released {
+			outs, d.gatedOuts = d.gatedOuts, nil
+			return outs
+		}
 		ob := d.Client.Observer(op.Vb)
 		if ob == nil {
 			return []SOut{{Kind: "ignored"}}
